@@ -256,7 +256,7 @@ class GowinGrid(Grid):
                 for m in MARGINS:
                     for p in (0, 90):
                         yield Req(fin, [(P, p, m)])
-                for k in ((1, 2, 3, 4, 5, 130) if quick else (1, 2, 3, 4, 6, 8, 5, 130)):
+                for k in ((1, 2, 3, 4, 5, 256) if quick else (1, 2, 3, 4, 6, 8, 5, 130, 256)):
                     for ph in ((0, 0), (0, 90), (90, 0), (90, 90)):
                         for ms in (((1e-2, 1e-2), (0, 0), (1e-2, 1e-4)) if quick else ((1e-2, 1e-2), (1e-4, 1e-4), (0, 0), (1e-2, 1e-4))):
                             yield Req(fin, [(P, ph[0], ms[0]), (P / k, ph[1], ms[1])])
